@@ -1,9 +1,51 @@
 import RefurbVerif.Wire.Basic
+import RefurbVerif.Wire.Settings
+import RefurbVerif.Model.Paths
 open Lean
 
 namespace RefurbVerif.Wire
+open RefurbVerif.Paths
 
-/-- driver verbs of this group (filled in by the property that owns it) -/
-def handlePaths (_verb : String) (_j : Json) : Option Json := none
+def ppathJ (p : PPath) : Json := Json.mkObj [("abs", p.abs), ("parts", toJson p.parts)]
+
+def toPPath (j : Json) : PPath := { abs := bool j "abs", parts := strs j "parts" }
+
+/-- `[[link components], "readlink text"]` pairs; the target is parsed like any other path -/
+def toLinks (j : Json) (k : String) : Links :=
+  (arr j k).filterMap (fun kv =>
+    match kv with
+    | .arr #[.arr ks, .str tgt] => some (ks.toList.filterMap (fun x => x.getStr?.toOption), parsePath tgt)
+    | _ => none)
+
+def optPartsJ : Option (List String) → Json
+  | some r => toJson r
+  | none => Json.null
+
+def optBoolJ : Option Bool → Json
+  | some b => Json.bool b
+  | none => Json.null
+
+def toAmendDiag (j : Json) : AmendDiag :=
+  { file := str j "file", pfx := str j "prefix", code := nat j "code", categories := strs j "categories" }
+
+/-- verbs: parse_path, config_root, path_join, resolve, relative, amend -/
+def handlePaths (verb : String) (j : Json) : Option Json :=
+  match verb with
+  | "parse_path" => some (ppathJ (parsePath (str j "s")))
+  | "config_root" => some (ppathJ (configRoot (optStr j "config_file")))
+  | "path_join" => some (ppathJ ((parsePath (str j "a")).join (parsePath (str j "b"))))
+  | "resolve" =>
+    let fs := toLinks j "links"
+    some (Json.mkObj [("r", Json.arr ((strs j "paths").map (fun s =>
+      optPartsJ (resolvePy fs (nat j "fuel") (strs j "cwd") (parsePath s)))).toArray)])
+  | "relative" => some (Json.mkObj [("r", isRelativeTo (strs j "p") (strs j "q"))])
+  | "amend" =>
+    -- one settings (config_file + ignore entries), one environment, many diagnostics
+    let fs := toLinks j "links"
+    let R : Resolver := resolvePy fs (nat j "fuel") (strs j "cwd")
+    let s : Settings := { ignore := (arr j "ignore").map toClsf, configFile := optStr j "config_file" }
+    some (Json.mkObj [("r", Json.arr ((arr j "diags").map (fun d =>
+      optBoolJ (ignoredViaAmend R s (toAmendDiag d)))).toArray)])
+  | _ => none
 
 end RefurbVerif.Wire
